@@ -74,7 +74,8 @@ def pending(R):
     ok = bool(sc)
     for (r, l) in sc:
         v = r.ast.value
-        ok = ok and isinstance(v, ast.Tuple) and len(v.elts) == 2 and U(v.elts[0]) == 'True' and U(v.elts[1]) == P \
+        from .common import otext
+        ok = ok and isinstance(v, ast.Tuple) and len(v.elts) == 2 and U(v.elts[0]) == 'True' and otext(R, g, r, v.elts[1]) == P \
             and r in g.reachable([g.entry], avoid={n}, skip_edge=nx)
     R.ob('C18.pending', 'short-cut returns (True, pending()) without blocking', ok,
          'the pending() short-cut does not return (True, pending()) before any blocking call', func=f, node=None,
@@ -181,18 +182,16 @@ def zeroread(R):
     g = R.cfg(q, 'frame_parser.ClientFrameParser')
     rd = ReachingDefs(g)
     n_ = 0
-    for y in g.yields():
-        st = y.stmt
-        if isinstance(st, ast.Assign) and isinstance(st.targets[0], ast.Attribute) and st.targets[0].attr == 'payload' \
-                and isinstance(y.ast.value, ast.Call) and y.ast.value.args:
+    from .C05 import _payload_reads
+    for (site, call, extra, y) in _payload_reads(R, g, rd):
+        if call.args:
             n_ += 1
-            a = y.ast.value.args[0]
-            lits = {(t, p) for (t, p, _) in guards_of(g, y)}
-            lo = None
+            a = call.args[0]
+            lits = {(t, p) for (t, p, _) in guards_of(g, site)} | set(extra)
             ok = (U(a), True) in lits
             R.ob('C18.zeroread', 'payload read only for a non-zero length', ok,
                  'a read of `%s` bytes can be awaited with length 0: the frame is then held until more bytes arrive '
-                 '(guards: %s)' % (U(a), sorted(lits)), func=q, node=st)
+                 '(guards: %s)' % (U(a), sorted(t for (t, p) in lits if p)[:6]), func=q, node=y.stmt)
     need(n_ >= 2, 'FrameParser.parse: payload reads not found')
 
 
